@@ -186,6 +186,18 @@ class World:
             self.redirect = {}
             self.rotate_after_first = None
             res["h"] = self.connections[-1] if self.connections else h1
+        elif kind == "ReopenFault":
+            # another client object is created on the same store while the store misbehaves (the k-th statement of opening it
+            # fails): it may fail to come up, it must not take the pins with it
+            if self.db0 is not None:
+                sqlfault.arm(act[1])
+                try:
+                    GeminiClient(timeout=30.0, trust_on_first_use=True, ssl_context=_CTX,
+                                 tofu_db_path=__import__("pathlib").Path(self.dir) / "tofu.db")
+                except Exception:  # noqa: BLE001
+                    pass
+                finally:
+                    sqlfault.disarm()
         elif kind == "ContextCycle":
             async def cycle():
                 async with self.client:
@@ -352,7 +364,7 @@ def run_history(init_state, acts, states, rep, own, label):
             try:
                 obs = w.do(tuple(act))
             except Exception as e:  # noqa: BLE001
-                if act[0] in ("Trust", "Revoke", "Clear", "ImportMerge", "ImportUpdate", "ImportReplace", "ContextCycle"):
+                if act[0] in ("Trust", "Revoke", "Clear", "ImportMerge", "ImportUpdate", "ImportReplace", "ContextCycle", "ReopenFault"):
                     # a trust-store operation the specification performs unconditionally failed on the real store
                     desc = "history %s (presents=%s tofu=%s): the store operation %s raised %r" % (
                         [list(a) for a in acts[:k + 1]], plain(init_state["presents"]), init_state["tofuOn"], list(act), e)
@@ -399,7 +411,7 @@ def random_history_traces(rep, rnd, count, own):
         try:
             for _ in range(rnd.randint(8, 40)):
                 pins = w.pins()
-                kinds = ["Call", "Call", "Call", "CallDropped", "Redirected", "RedirectRotate", "Rotate", "ContextCycle", "CallStoreFault"]
+                kinds = ["Call", "Call", "Call", "CallDropped", "Redirected", "RedirectRotate", "Rotate", "ContextCycle", "CallStoreFault", "ReopenFault"]
                 if tofu_on:
                     kinds += ["Trust", "Clear", "ImportMerge", "ImportUpdate", "ImportReplace", "CallRacing", "CallStoreFault"]
                     if any(v != "none" for v in pins.values()):
@@ -414,6 +426,8 @@ def random_history_traces(rep, rnd, count, own):
                     act = (k, rnd.choice(["get", "upload"]), h, rnd.randint(0, 3))
                 elif k == "ContextCycle":
                     act = (k,)
+                elif k == "ReopenFault":
+                    act = (k, rnd.randint(0, 3))
                 elif k == "Redirected":
                     h2 = rnd.choice([x for x in HPS if x != h])
                     act = (k, h, h2)
@@ -538,7 +552,7 @@ def main(pid="C03", rep=None, finish=True):
         rep.tlc("Tofu(design)", r)
         if not r.ok:
             raise tlc.TLCError("design variant of Tofu violates %s" % r.violated)
-        for a in ("Call", "CallDropped", "CallRacing", "CallStoreFault", "ContextCycle", "Redirected", "RedirectRotate", "ImportUpdate", "Rotate", "Trust", "Revoke", "Clear", "ImportMerge", "ImportReplace"):
+        for a in ("Call", "CallDropped", "CallRacing", "CallStoreFault", "ContextCycle", "ReopenFault", "Redirected", "RedirectRotate", "ImportUpdate", "Rotate", "Trust", "Revoke", "Clear", "ImportMerge", "ImportReplace"):
             if r.coverage.get(a, (0, 0))[1] == 0:
                 raise tlc.TLCError("vacuity: action %s never taken" % a)
         dev = tlc.expect_caught("Tofu", "MC_Tofu.cfg", {"DevUnreadableSkipsCheck": ["PinRespected", "UnreadableRefused"],
@@ -585,6 +599,9 @@ def main(pid="C03", rep=None, finish=True):
                             "final_pins": sts[-1]["pins"]})
         rep.add("behaviours_replayed", nb)
         random_history_traces(rep, random.Random(rep.seed * 3 + 33), 400 if thorough else 80, own)
+        # the command line front end: `nauyaca get` keeps trust-on-first-use on unless told otherwise (spec/ClientCli.tla)
+        from checks import clientcli
+        clientcli.main(pid, rep=rep, finish=False)
         rep.add("history_steps_executed", steps)
         rep.add("traces_validated_against_impl", n + nb)
         rep.assume("peers are scripted transports presenting the chosen DER through ssl_object.getpeercert(binary_form=True); "
